@@ -260,6 +260,17 @@ pub open spec fn taub_shape(r: Formula, names: Seq<String>, vals: Seq<Formula>, 
         && *(*r->QuantifiedFormula_formula)->BinaryFormula_rhs == rhs
 }
 
+pub open spec fn taub_rhs(r: Formula) -> Formula { *(*r->QuantifiedFormula_formula)->BinaryFormula_rhs }
+
+/// r is  exists Z (val_t(Z) & [not [not]] p(Z))
+pub open spec fn fo_shape(r: Formula, names: Seq<String>, vals: Seq<Formula>, sign: asp::Sign, p: Seq<char>) -> bool {
+    taub_shape(r, names, vals, taub_rhs(r)) && is_signed_atom(taub_rhs(r), sign, p, zterms(names))
+}
+/// r is  exists Z1 Z2 (val_t1(Z1) & val_t2(Z2) & Z1 rel Z2)
+pub open spec fn cmp_shape(r: Formula, names: Seq<String>, vals: Seq<Formula>, rel: Relation) -> bool {
+    taub_shape(r, names, vals, taub_rhs(r)) && cmp1(GeneralTerm::Variable(names[0]), rel, GeneralTerm::Variable(names[1]), taub_rhs(r))
+}
+
 /// semantics of the block: some tuple of values of the terms, given to the Z's, makes rhs true
 pub proof fn lemma_taub_block(r: Formula, terms: Seq<asp::Term>, names: Seq<String>, vals: Seq<Formula>, rhs: Formula, w: World, m: HT, s: Asg)
     requires parts_ok(terms, names, vals), taub_shape(r, names, vals, rhs),
